@@ -828,8 +828,9 @@ def oversize_cases():
     for n in (21000, 22000):
         lst = "[" + ",".join(["1"] * n) + "]"
         pre = ["dimension Scalar = 1", Gen.FOREIGN["len"][0]]
-        out.append((pre + ["if true then len(%s) else 7" % lst], "V:%d" % n, n))
-        out.append((pre + ["if false then len(%s) else 7" % lst], "V:7", n))
+        big = 3 * n + 3 + 10 > 65532      # end of the conditional beyond the 16 bit limit
+        out.append((pre + ["if true then len(%s) else 7" % lst], "E:CodeTooLarge" if big else "V:%d" % n, n))
+        out.append((pre + ["if false then len(%s) else 7" % lst], "E:CodeTooLarge" if big else "V:7", n))
     return out
 
 
@@ -942,6 +943,9 @@ def classify(impl_line, model_str):
         if a.startswith("R:E:") and b.startswith("R:E:"):
             return True
         return a == b
+    if io == "R:E:CodeTooLarge" or m == "R:E:CodeTooLarge":
+        # explicit resource limit of the compiler (16 bit jump offsets): model and implementation must agree
+        return ("ok", "") if m == io else ("model-compile", "CodeTooLarge: implementation %s, model %s" % (io, m))
     if io.startswith("R:E:"):
         ok_m = (m == io)
         ok_s = s.startswith("R:E:")
